@@ -11,7 +11,7 @@ CLAIMS = {
                 "returns), no store / in-place call / structural store reaches an object aliasing receiver or arguments through any "
                 "callee, and grouping is only assigned by group_by. Decides the aliasing and mutation discipline itself (a sound "
                 "may-alias analysis modulo the operation table), not value equality. Right level: the property is an ownership "
-                "discipline whose truth is in the code's shape on every path. Added later: the per-group frames cut by _view_rows are copies (an index that may be a slice object is tracked).",
+                "discipline whose truth is in the code's shape on every path. Added later: the per-group frames cut by _view_rows are copies (an index that may be a slice object is tracked). Round 7: keyword-sensitive operation table (astype(copy=False), np.array(copy=False), overwrite_input=True).",
         "note": TRUST,
         "technique": "abstract interpretation (may-alias origins + write effects) with computed callee summaries over the ast; exemption table from the statement",
     },
@@ -22,7 +22,7 @@ CLAIMS = {
                 "recursion into the predecessor; the wrapper marks the receiver on every normal path; the warning is printed "
                 "only under _obsolete and not _obsolete_warned and every printing path sets the flag; every list sharing items is "
                 "built by self._new, the sole writer of _predecessor; deepcopy yields fresh items and no predecessor. Decides the "
-                "discipline that makes the behaviour hold for all histories; not the caller-side timing of the warning. Added later: ListOfDicts methods assign only the bookkeeping attributes (no item-derived caches); the predecessor link is tested by identity/instance, never truthiness; the name guard of __getattribute__ is evaluated as a string predicate on every attribute name the class looks up on itself.",
+                "discipline that makes the behaviour hold for all histories; not the caller-side timing of the warning. Added later: ListOfDicts methods assign only the bookkeeping attributes (no item-derived caches); the predecessor link is tested by identity/instance, never truthiness; the name guard of __getattribute__ is evaluated as a string predicate on every attribute name the class looks up on itself. Round 7: attribute stores on an argument list (caches on the other list of a join) are judged like those on the receiver.",
         "note": TRUST,
         "technique": "abstract interpretation of write effects on item-dict origins + CFG dominator/post-dominator typestate rules on the flags",
     },
@@ -30,7 +30,7 @@ CLAIMS = {
         "text": "Alias clause decided exactly for all argument combinations: each io.py function declared an alias (via "
                 "format_alias_doc) has the target's signature and forwards every parameter under its own name in a single call "
                 "on every path. Restriction clause decided structurally: liveness and by-name use of columns/keys/dtypes/types in "
-                "all readers and order provenance at positional labelling sites. Not decided: cast-after-read == cast-while-read. Added later: membership filters on the restriction parameter keep the elements IN it; each (name, type) pair of a type map reaches a conversion; parsed Python lists are cast through the converting constructor; liveness counts only effective uses (a self-reassignment is not a use).",
+                "all readers and order provenance at positional labelling sites. Not decided: cast-after-read == cast-while-read. Added later: membership filters on the restriction parameter keep the elements IN it; each (name, type) pair of a type map reaches a conversion; parsed Python lists are cast through the converting constructor; liveness counts only effective uses (a self-reassignment is not a use). Round 7: no argument of a foreign parsing call depends on the dtype map; field order inside rows is tracked through itemgetter(*indices).",
         "note": TRUST,
         "technique": "signature comparison + keyword-forwarding analysis + order-provenance dataflow over reaching definitions",
     },
@@ -39,7 +39,7 @@ CLAIMS = {
                 "dispatched entry points, no write effect on the rendered object in the rendering call graph, every identity-less "
                 "reduction reachable from an entry point guarded against empty operands (obligation moved to call sites for helper "
                 "parameters, also through local function aliases), null-geometry accesses guarded, cell lists padded. Not decided: "
-                "exact widths/wording. Added later: print_ and the renderers use every option they accept; util.upad measures display width only; strict-JSON dumps reachable from rendering are partial operations.",
+                "exact widths/wording. Added later: print_ and the renderers use every option they accept; util.upad measures display width only; strict-JSON dumps reachable from rendering are partial operations. Round 7: memo tables keyed by a lossy projection of the dtype in the rendering functions.",
         "note": TRUST,
         "technique": "override-compatibility + effect analysis + guard-dominates-partial-operation (CFG must-facts) + nullable-source rule",
     },
@@ -54,7 +54,7 @@ CLAIMS = {
     "C03": {
         "text": "Necessary conditions of DataFrame.sort for all inputs: a single lexsort permutation indexes all columns, keys "
                 "reach lexsort in reversed user order, rank fallback is method='min', directions validated before use, key "
-                "construction total on empty/all-missing columns and free of writes on the receiver. Not decided: the order itself. Added later: a dtype-class dataflow over sort_key judges each negation / complement / conversion of a key against the element types on which it keeps all order relations (NumPy fact: timedelta64 is an integer), the requested direction is applied by exactly one reversal, and fixed-width string keys get a maximal sentinel for their missing values.",
+                "construction total on empty/all-missing columns and free of writes on the receiver. Not decided: the order itself. Added later: a dtype-class dataflow over sort_key judges each negation / complement / conversion of a key against the element types on which it keeps all order relations (NumPy fact: timedelta64 is an integer), the requested direction is applied by exactly one reversal, and fixed-width string keys get a maximal sentinel for their missing values. Round 7: _optimize_for_argsort casts only within the string family (is_na must still see '').",
         "note": TRUST,
         "technique": "loop-invariant index rule, def-use on the lexsort argument, must-facts for direction validation, guard and effect engines",
     },
@@ -63,7 +63,7 @@ CLAIMS = {
                 "the right keep/drop operator, filter/filter_out sibling agreement against the statement's semantics, drop_na "
                 "any-column accumulation, clamping in head/tail/sample, order-preserving sample, NA mask as its own key "
                 "component in unique (sentinel soundness under IEEE-754), totality on 0-row frames, mask length check. Not "
-                "decided: which rows a given mask selects. Added later: no subsetting method reads the grouping state of an earlier group_by(); default counts replace only a count that was not given; column-position parsers mirror the row-position parsers; every element type whose missing value is not self-equal (NaN, NaT of dates and of timedeltas) is normalised in unique's key tuples.",
+                "decided: which rows a given mask selects. Added later: no subsetting method reads the grouping state of an earlier group_by(); default counts replace only a count that was not given; column-position parsers mirror the row-position parsers; every element type whose missing value is not self-equal (NaN, NaT of dates and of timedeltas) is normalised in unique's key tuples. Round 7: np.diff of a key as a sortedness test is judged by the dtype-class dataflow (wraps on integers); key columns are never stacked into one array (common-dtype promotion).",
         "note": TRUST,
         "technique": "sibling feature records vs spec table, loop-invariant index rule, clamp-dominates-use, sentinel/mask dataflow, guard engine",
     },
@@ -73,7 +73,7 @@ CLAIMS = {
                 "stores only reconciled columns; base-class storage primitives occur only in the six writer methods and unchecked row "
                 "views never escape; generator methods return through the checked constructor; key/attribute bookkeeping is paired on "
                 "add and remove under satisfiable guards; colnames assignment is two-phase; vectors check ndim. Decides that "
-                "rectangularity and key/attribute coherence are preserved by every operation, not that stored values are right. Since the mutation sweep also: the removers delete the placeholder attribute under guards of the right polarity.",
+                "rectangularity and key/attribute coherence are preserved by every operation, not that stored values are right. Since the mutation sweep also: the removers delete the placeholder attribute under guards of the right polarity. Round 7: the name reaching dict.__setitem__ is the key argument itself.",
         "note": TRUST,
         "technique": "must-pass-through and guard-dominates-site rules on per-function CFGs, who-may-call over resolved callees, store-separation reasoning, escape check via the E3 interpreter",
     },
@@ -108,7 +108,7 @@ CLAIMS = {
                 "copied from the statement: minimum group size, under-threshold default, statistic and extra arguments, NA wiring "
                 "(handle_na before any length test; drop_na and is_na().any() of the aggregated column; all/any unfiltered), "
                 "identity-less statistics never bound with nrequired=0, protocol attributes set on every path, first/last = nth(0/-1). "
-                "Decides that the documented default/threshold/NA policy is wired identically in both forms, not the numbers. Added later: every extra statistic argument (ddof) reaches the statistic in every case of both forms (a case taken only for the library default counts as passing it); memoising decorators key on all arguments.",
+                "Decides that the documented default/threshold/NA policy is wired identically in both forms, not the numbers. Added later: every extra statistic argument (ddof) reaches the statistic in every case of both forms (a case taken only for the library default counts as passing it); memoising decorators key on all arguments. Round 7: np.nan_to_num without posinf=/neginf= is not a missing-value substitution.",
         "note": TRUST,
         "technique": "sibling feature-record extraction by ast dataflow + comparison against a spec table; CFG must-pass-through for protocol attributes",
     },
@@ -121,7 +121,7 @@ CLAIMS = {
                 "returns a list mixing element values with None (list(Optional(T))), whose conversion depends on compile order with "
                 "the Numba installed here -- violated at four sites of the pinned tree, recorded as known finding D25 with the failing "
                 "histories. NOT decided: numerical equality of NumPy vs Numba re-implementations (e.g. the mode loops), rounding, the "
-                "on-disk cache.",
+                "on-disk cache. Round 7: no call or keyword dict sets overwrite_input (the Python statistic would reorder the shared column, the compiled twin copies).",
         "note": TRUST + " The history clause is decided only through the Optional-list condition, which was established by a probe "
                 "(notes/numba_optional_lists.md); other compile-order effects, if any, are outside this technique.",
         "technique": "twin feature-record comparison over the ast, decorator/registry rules, dtype-kind evaluation of use_numba against "
@@ -131,7 +131,7 @@ CLAIMS = {
         "text": "Necessary conditions of rbind/select/unselect/rename/cbind/update/modify/colnames assignment for all inputs: two-phase "
                 "rename, rbind over every input in argument order with an order-preserving union of names and NA parts built from one "
                 "reference column at the lacking input's row count, name-value provenance in select/rename/unselect, first-wins / "
-                "replace semantics of cbind/update/modify, untouched columns yielded whole. Not decided: NumPy promotion.",
+                "replace semantics of cbind/update/modify, untouched columns yielded whole. Not decided: NumPy promotion. Round 7: modify hands on every existing column unconditionally.",
         "note": TRUST,
         "technique": "def-use and loop-structure rules per method (name/value provenance), sibling NA-pair rule, loop-carried hazard rule",
     },
@@ -140,7 +140,7 @@ CLAIMS = {
                 "lists and evaluated over nine kinds with a trusted predicate table encoding NumPy's scalar hierarchy (timedelta64 is an "
                 "integer subtype); value, holding dtype and detector must match each other and the statement; the NA substitution "
                 "predicate equals the inference-ignore predicate and is unconditional; consumers use is_na only. Not decided: which "
-                "dtype NumPy infers for a mixed list; equivalence laws of equal; round trips. Added later: where the substituted missing value comes from (na_value of the known dtype, else guessed from util.unique_types over the WHOLE sequence), _np_array decides the dtype only when none was requested, equal compares only equal lengths, dates are inferred only from a non-empty type set, and/not in the decision lists.",
+                "dtype NumPy infers for a mixed list; equivalence laws of equal; round trips. Added later: where the substituted missing value comes from (na_value of the known dtype, else guessed from util.unique_types over the WHOLE sequence), _np_array decides the dtype only when none was requested, equal compares only equal lengths, dates are inferred only from a non-empty type set, and/not in the decision lists. Round 7: memo tables keyed by a lossy projection of the dtype (type/num/kind/char); nan_to_num; every return of unique_types passes the None/NaN filter.",
         "note": TRUST + " Predicate/kind table in sa/props/C10.py.",
         "technique": "abstract evaluation of ordered decision lists over a finite kind lattice; predicate-equality of two comprehensions",
     },
@@ -149,7 +149,7 @@ CLAIMS = {
                 "importer twins from_arrow/from_pandas agree on mask source, object fallback, guarded upcast and masked NA store; NA "
                 "value/dtype pairing; None defaults when ListOfDicts/JSON records lack keys; and the contradicted-belief rule that a "
                 "dtype decision must not depend on one fixed element (reports the element-0 string sniffing in Vector._np_array as a "
-                "known finding). Not decided: the values and dtypes that come back.",
+                "known finding). Not decided: the values and dtypes that come back. Round 7: no value becomes None/NaN under an isfinite()/isinf() test; dtype sniffing also when the fixed element is read in the assigned value.",
         "note": TRUST,
         "technique": "must-sanitise (tolist) taint rule, sibling feature records with branch facts, fixed-element-dependence rule",
     },
@@ -158,7 +158,7 @@ CLAIMS = {
                 "pass, clamping and no possibly-zero negated slice bound in head/tail/sample, insert delivers its item on every CFG path, "
                 "caller-supplied dicts are coerced before reaching the as-is constructor, sort is multi-pass stable with reversed key "
                 "order / reverse=dir<0 / None-flag keys / validated directions, unique yields under a not-seen guard that records the key. "
-                "Not decided: full sequence equality with list operations. Added later: the constructor converts every item unless the caller passes as_is; unique records the key values themselves (no lossy reduction); guard-clause forms accepted.",
+                "Not decided: full sequence equality with list operations. Added later: the constructor converts every item unless the caller passes as_is; unique records the key values themselves (no lossy reduction); guard-clause forms accepted. Round 7: every returning path of a decorator wrapper calls the wrapped function; fill_missing_keys yields only after the fill loop or under a nothing-missing test.",
         "note": TRUST,
         "technique": "CFG path rule (must-yield), interval lower bounds for slice bounds, branch-fact sibling comparison, coercion-idiom typestate",
     },
@@ -183,7 +183,7 @@ CLAIMS = {
                 "right parameter and are complete; each regex function calls re.<own name> identically in scalar and vector branch "
                 "over the non-missing positions; each dt extractor reads the datetime member of its own name (kind from the stdlib); "
                 "the _pull_* helpers share one skeleton; np.vectorize applications are dominated by the all-missing early return; early "
-                "returns convert like the final return. Not decided: calendar arithmetic, strftime/regex semantics. Added later: from_string narrows to dates only when every time-of-day extractor (hour, minute, second, microsecond) is zero for all parsed values.",
+                "returns convert like the final return. Not decided: calendar arithmetic, strftime/regex semantics. Added later: from_string narrows to dates only when every time-of-day extractor (hour, minute, second, microsecond) is zero for all parsed values. Round 7: every return of a regex function's vector branch hands back the default-filled (or NA-masked) array.",
         "note": TRUST,
         "technique": "registry/forwarding rules, sibling skeleton comparison, guard-dominates-partial-operation, must-convert-on-every-return rule",
     },
